@@ -34,6 +34,8 @@ func main() {
 		to := fs.Duration("case-timeout", 90*time.Second, "")
 		fs.Parse(os.Args[2:])
 		os.Exit(runWorker(*in, *out, *prog, *to))
+	case "explain":
+		os.Exit(explainReplay(os.Args[2]))
 	case "level":
 		fmt.Println(hostLevel())
 	case "check":
@@ -163,6 +165,14 @@ func runReplay(c *Ctx, path string) int {
 		return 2
 	}
 	cd := &Candidate{Case: cs, Arch: r.Arch}
+	for _, g := range r.Group {
+		gc, _, _, err := decodeCase(g)
+		if err != nil {
+			fmt.Fprintln(os.Stderr, err)
+			return 2
+		}
+		cd.Group = append(cd.Group, gc)
+	}
 	ok, clauses, err := c.replayOnce(cd, module, cfg)
 	if err != nil {
 		fmt.Fprintln(os.Stderr, "MACHINERY-PROBLEM:", err)
